@@ -66,6 +66,9 @@ func layeringCase(prop string, seed int64, tier string, idx int, layerer int) *c
 	case 0:
 		g := gen.Coincidence(r)
 		c.Family, c.Edges = g.Family, gen.Names(g)
+	case 6:
+		g := gen.Slack(r)
+		c.Family, c.Edges = g.Family, gen.Names(g)
 	case 1, 2:
 		g := gen.Skip(r, 3+r.Intn(6), 1, 5, 0.35, 1+r.Intn(8), 2+r.Intn(5))
 		c.Family, c.Edges = g.Family, gen.Names(g)
